@@ -79,11 +79,11 @@ type prov struct {
 }
 
 func runKvSequence(ops []kvOp, seq int, backends []string, out *ndw, kinds map[string]int) {
-	ctx := context.Background()
 	for _, be := range backends {
 		store, cleanup := newKvBackend(be)
 		provs := map[string]prov{}
 		curT, curS := 0, ""
+		ctx := context.Background() // carries the caller's language ("Language" context value), as the engine does
 		for i, o := range ops {
 			if o.Op == "dump" && be != "fs" && be != "fsbin" {
 				continue // listing is judged where C10 says it is implemented: the filesystem backend
@@ -113,6 +113,15 @@ func runKvSequence(ops []kvOp, seq int, backends []string, out *ndw, kinds map[s
 							panic(lerr)
 						}
 						store.SetLanguage(&l)
+					}
+				case "setctxlang":
+					ctx = context.Background()
+					if o.S != "" {
+						l, lerr := lang.LanguageFromCode(o.S)
+						if lerr != nil {
+							panic(lerr)
+						}
+						ctx = context.WithValue(ctx, "Language", l)
 					}
 				case "setlock":
 					err = store.SetLock(uint8(o.T), o.B)
@@ -231,8 +240,10 @@ func cmdKvRandom(args []string) error {
 				ops = append(ops, kvOp{Op: "setprefix", T: kvTypes[rng.Intn(6)]})
 			case r < 24:
 				ops = append(ops, kvOp{Op: "setsession", S: sids[rng.Intn(len(sids))]})
-			case r < 32:
+			case r < 29:
 				ops = append(ops, kvOp{Op: "setlang", S: langs[rng.Intn(len(langs))]})
+			case r < 32:
+				ops = append(ops, kvOp{Op: "setctxlang", S: langs[rng.Intn(len(langs))]})
 			case r < 37:
 				ops = append(ops, kvOp{Op: "setlock", T: []int{0, 1, 2, 4, 8, 16}[rng.Intn(6)], B: rng.Intn(2) == 0})
 			case r < 65:
